@@ -4,6 +4,7 @@ E1 transition monitor: after every transition of the shape spaces, _check(),
 BTrees.check.check() and an independent walk over the recursive __getstate__ dump.
 """
 from .. import fam as F
+from .. import ops as O
 from .. import space as S
 from .. import canon as C
 
@@ -26,12 +27,12 @@ def bounds(tier):
             'subclass route @2/2, 3/2), all 22 families N=4 full alphabet; thorough: all 22 deep, '
             'N=7 C / N=6 Py, sizes {2,3,4}^2; wide nodes (vt.space.wide_configs: thinning spaces @2/8, 8/2, 6/6 and '
             'BFS N=7 @2/8, N=9 @8/2) and big states at the DEFAULT node sizes (II 200 keys, OO 100 keys: every '
-            'single operation from a scripted build)' % (QUICK_SIZES,))
+            'single operation from a scripted build); every transition repeated on an unpickled copy of the source tree' % (QUICK_SIZES,))
 
 
 def required_guards(tier):
     return ['height>=3', 'single_child_interior', 'leaf_split', 'interior_split', 'root_split',
-            'leaf_unlinked', 'first_leaf_unlinked', 'checked']
+            'leaf_unlinked', 'first_leaf_unlinked', 'checked', 'loaded_route']
 
 
 def jobs(tier):
@@ -118,8 +119,9 @@ def structural_events(prev, cur):
     return ev
 
 
-def checker_monitor(sizes, use_check):
+def checker_monitor(sizes, use_check, loaded=False):
     from BTrees.check import check as bcheck
+    import pickle
     walked = {}
 
     def run(ex, hist, op, t, model, c):
@@ -171,6 +173,26 @@ def checker_monitor(sizes, use_check):
         if src is not None:
             for e in structural_events(src, c):
                 ex.guards[e] += 1
+        # the same transition on a tree that was LOADED (unpickled: exact-fit child / key vectors, no
+        # cached node sizes) instead of grown: same shape, and sound
+        if loaded and src is not None and ex.ctx.is_tree and not C.has_lone_leaf_node(src):
+            ctx = ex.ctx
+            try:
+                t3 = pickle.loads(pickle.dumps(ex.rebuild(hist), 2))
+                O.apply_sut(ctx, t3, op)
+                c3 = C.dump(t3, True)
+                ex.guards['loaded_route'] += 1
+                if c3 != c:
+                    ex.report(dict(prop='C03', sig=ex.sig('loaded', 'shape'), case=ex.case(hist, op, loaded=True),
+                                   detail='the same operation on an unpickled copy of the tree gives %r, on the '
+                                          'grown tree %r' % (c3, c)))
+                else:
+                    t3._check()
+                    if use_check:
+                        bcheck(t3)
+            except Exception as e:      # noqa
+                ex.report(dict(prop='C03', sig=ex.sig('loaded', type(e).__name__), case=ex.case(hist, op, loaded=True),
+                               detail='unpickled copy, then %r: %s: %s' % (op, type(e).__name__, e)))
 
     def smon(ex, hist, t, model, c):
         prev_of[hist] = c
@@ -184,7 +206,7 @@ def job(fam, kind, impl, sizes, n, variant, alphabet, subclass, thin=None, big=N
                     subclass=subclass, thin=thin, big=big)
     ex.base_case['alphabet'] = alphabet
     ex.base_case['subclass'] = subclass
-    tmon, smon = checker_monitor(sizes, use_check=not subclass)
+    tmon, smon = checker_monitor(sizes, use_check=not subclass, loaded=not subclass and not big)
     ex.trans_monitors.append(tmon)
     ex.state_monitors.append(smon)
     ex.run()
